@@ -621,49 +621,4 @@ theorem parseMappingEntry_filler (f : Filler) : parseMappingEntry f.print = .unr
         (Or.inr ⟨35, t, rfl, by decide, by decide⟩)
   simp [parseMappingEntry, this]
 
-theorem parseProcMaps_cons (l : Str) (r : List Str) :
-    parseProcMaps (l :: r) = (match parseMappingEntry l with
-      | .mapping m => m :: parseProcMaps r
-      | _ => parseProcMaps r) := rfl
-
-theorem parseProcMaps_fillers (fs : List Filler) (rest : List Str) :
-    parseProcMaps (printFillers fs ++ rest) = parseProcMaps rest := by
-  induction fs with
-  | nil => rfl
-  | cons f fs ih => simp [printFillers, parseProcMaps, parseMappingEntry_filler] at ih ⊢; exact ih
-
-theorem parseProcMaps_entries (es : List (List Filler × MapEntry)) (rest : List Str)
-    (h : ∀ p ∈ es, p.2.wf = true) :
-    parseProcMaps (es.flatMap (fun p => printFillers p.1 ++ [p.2.print]) ++ rest)
-      = es.filterMap (fun p => p.2.mapping) ++ parseProcMaps rest := by
-  induction es with
-  | nil => rfl
-  | cons p es ih =>
-    simp only [List.flatMap_cons, List.append_assoc, parseProcMaps_fillers, List.singleton_append, List.cons_append]
-    have := ih (fun q hq => h q (by simp [hq]))
-    rw [parseProcMaps_cons, parseMappingEntry_print p.2 (h p (by simp))]
-    cases hm : p.2.mapping with
-    | none => simp [List.filterMap_cons, hm, this]
-    | some m => simp [List.filterMap_cons, hm, this]
-
-theorem parseProcMaps_bodyLines (m : MapSection) (h : m.wf = true) : parseProcMaps m.bodyLines = m.mappings := by
-  unfold MapSection.bodyLines MapSection.mappings
-  simp only [MapSection.wf, Bool.and_eq_true, List.all_eq_true] at h
-  rw [parseProcMaps_entries _ _ (fun p hp => (h.1 p hp).2)]
-  have : parseProcMaps (printFillers m.post) = [] := by
-    simpa [parseProcMaps] using parseProcMaps_fillers m.post []
-  simp [this]
-
-/-- after a record loop that stopped on the sentinel line (or ran out of lines). -/
-theorem parseAdditionalSections_tail (sentinel : Str) (hs : isMemoryMapSentinel sentinel = true)
-    (map : Option MapSection) (h : ∀ m, map = some m → m.wf = true) :
-    (match tailLines sentinel map with
-     | [] => parseAdditionalSections [] []
-     | cur :: rest => parseAdditionalSections cur rest) = tailMappings map := by
-  cases map with
-  | none => simp [tailLines, tailMappings, parseAdditionalSections, skipToSentinel, parseProcMaps]
-  | some m =>
-    simp only [tailLines, tailMappings, parseAdditionalSections, hs, if_true]
-    exact parseProcMaps_bodyLines m (h m rfl)
-
 end PV.Legacy
